@@ -102,4 +102,10 @@ theorem insideEq_add_outside (r : Path) (fs : FS) (q : Path) (j : Ino) (n : Inod
     unfold FS.nlink
     simp [List.filter_append, Ne.symm this]
 
+/-- the packer that runs inside the jail (`Tarballer.Do` and what it reaches) is reached only through
+    `goInChroot` and starts no goroutine of its own: every read it makes is made on the jailed thread -/
+theorem packer_inside_jail_single_threaded :
+    Facts.extractorUses = (3, 0) ∧ Facts.switchRootInSetup = true ∧
+    Facts.jailBodyRootsFound = true ∧ Facts.jailBodyGoStmts = [] := by decide
+
 end GA.C07
